@@ -427,12 +427,13 @@ def load_signatures_from_json(
 
     try:
         if input_type == SigInput.FILE_LIKE:
-            if (
-                hasattr(data, "mode") and "t" in data.mode
-            ):  # need to reopen handler as binary
-                data = data.buffer
-
-            buf = data.read()
+            # a text-mode handle: read its binary buffer, but keep the wrapper
+            # referenced while doing so (rebinding `data = data.buffer` let CPython
+            # finalise the wrapper, which closes the buffer)
+            if hasattr(data, "mode") and "t" in data.mode:
+                buf = data.buffer.read()
+            else:
+                buf = data.read()
             data.close()
             data = buf
             input_type = SigInput.BUFFER
